@@ -91,5 +91,5 @@ PROOFS = [
 # quick native sweep (bounded, supporting): the chunk framing of the real ResponseStream::write at the chunk lengths where the number of hex
 # digits of the size line changes -- the bytes are taken out of the stream's buffer and decoded independently.  It stands in where a rewrite
 # formats the size line through libc (seed C05-I: snprintf), which no contract here reaches
-NATIVE_SWEEPS = [{'name': 'chunk_framing_sizes', 'quick': True, 'driver': 'chunk_rt', 'props': ['C05', 'C02'], 'what': 'ResponseStream::write (chunk-size CRLF data CRLF)',
+NATIVE_SWEEPS = [{'name': 'chunk_framing_sizes', 'quick': True, 'driver': 'chunk_rt', 'props': ['C05'], 'what': 'ResponseStream::write (chunk-size CRLF data CRLF)',
                   'argvs': [[str(n)] for n in (1, 9, 10, 15, 16, 255, 256, 4095, 4096, 65535, 65536, 1048575, 1048576, 1048577, 16777215, 16777216)]}]
